@@ -61,7 +61,7 @@ type vfCfg struct {
 	ClientCert  bool
 	CIDc, CIDs  int // -1: no generator; otherwise CID length
 	SRTP        int // 0 none, 1 same single, 2 overlapping lists different order, 3 with MKI
-	ALPN        int // 0 none, 1 same, 2 overlapping different order
+	ALPN        int // 0 none, 1 same, 2 overlapping different order, 3 offered by the client only
 	MTU         int // 0 default
 	HelloVerify bool
 	Curves      int  // 0 default, 1 x25519 only, 2 p256 only, 3 p384,p256 / p256,x25519
@@ -173,6 +173,8 @@ func (c vfCfg) Options(cStore, sStore SessionStore) (co []ClientOption, so []Ser
 	case 2:
 		cO = append(cO, WithSupportedProtocols("a", "b", "c"))
 		sO = append(sO, WithSupportedProtocols("x", "c", "b"))
+	case 3:
+		cO = append(cO, WithSupportedProtocols("a", "b", "c"))
 	}
 	if c.MTU > 0 {
 		cO = append(cO, WithMTU(c.MTU))
